@@ -102,11 +102,16 @@ def f_logg(x):
     return [x[-1] - 0.5 * math.log(a)]
 
 
+def f_semising(x):
+    h = x[0] * x[0] if x[0] > 0 else 0.0
+    return [math.sqrt(_sumsq(x)) - 1.0, x[-1] * h]
+
+
 # constraints whose function is NOT finite on the whole ambient box (domain edge inside the bounds)
 PARTIAL = ("hemi", "logg")
 
 CONS = {
-    "hemi": (1, f_hemi), "logg": (1, f_logg),
+    "hemi": (1, f_hemi), "logg": (1, f_logg), "semising": (2, f_semising),
     "sphere": (1, f_sphere), "spherenj": (1, f_sphere), "torus": (1, f_torus), "plane": (1, f_plane),
     "spherepl": (2, f_spherepl), "isect": (2, f_spherepl), "quartic": (1, f_quartic), "quarticg": (1, f_quarticg), "nearpar": (2, f_nearpar),
 }
@@ -195,6 +200,17 @@ def normal_targets(cfg, tcfg, pts, r):
     out = []
     cand = list(pts)
     r.shuffle(cand)
+    # axis-aligned manifold points first: there the chart coordinates of the target along the normal are *exactly* those of
+    # `from` (u_b - u_j == 0: Eigen's normalized() leaves the zero vector alone, the traversal does not move: exit `stalled`)
+    axis = []
+    for i in range(cfg["n"]):
+        for sc in (1.0, -1.0, 0.6, 1.4):
+            e = [0.0] * cfg["n"]
+            e[i] = sc
+            if satisfied(tcfg, e) and all(cfg["lo"] <= v <= cfg["hi"] for v in e):
+                axis.append(e)
+    r.shuffle(axis)
+    cand = axis[:1] + cand
 
     def good(q):
         return q is not None and satisfied(tcfg, q) and all(cfg["lo"] <= v <= cfg["hi"] for v in q)
@@ -303,28 +319,12 @@ def st(x):
     return " ".join(f2bits(v) for v in x)
 
 
-_SI_REPAIRED = []
-
-
-def si_repaired():
-    """does the tree under test carry the F460 repair of TangentBundleSpaceInformation::checkMotion (a failed projection of
-    lastValid.first falls back to s1 with fraction 0)?  The model follows the code it is run against (header key sifix)."""
-    if not _SI_REPAIRED:
-        try:
-            src = open(os.path.join(core.REPO, "src/ompl/base/ConstrainedSpaceInformation.h")).read()
-            body = src[src.index("class TangentBundleSpaceInformation"):]
-            _SI_REPAIRED.append("lastValid.second = 0" in body)
-        except (OSError, ValueError):
-            _SI_REPAIRED.append(False)
-    return _SI_REPAIRED[0]
-
-
 def header(cfg, driver=False):
     base = "n=%d delta=%s lambda=%s tol=%s maxit=%d lo=%s hi=%s" % (
         cfg["n"], f2bits(cfg["delta"]), f2bits(cfg["lam"]), f2bits(cfg["tol"]), cfg["maxit"], f2bits(cfg["lo"]), f2bits(cfg["hi"]))
     if driver:
         m = CONS[cfg["con"]][0]
-        return "constrained m=%d k=%d tbfix=1 sifix=%d %s %s" % (m, cfg["n"] - m, 1 if si_repaired() else 0, base, cfg.get("aparams", ""))
+        return "constrained m=%d k=%d tbfix=1 sifix=1 %s %s" % (m, cfg["n"] - m, base, cfg.get("aparams", ""))
     extra = "".join(" %s=%s" % (k, v) for k, v in sorted((cfg.get("aextra") or {}).items())) if cfg["space"] != "proj" else ""
     base = base + extra
     obs = "none" if cfg["obs"] is None else "%d:%s:%s" % (cfg["obs"][0], f2bits(cfg["obs"][1]), f2bits(cfg["obs"][2]))
@@ -446,7 +446,7 @@ def gen_configs(rng, count, tier):
     k = 0
     while len(cfgs) < count:
         space = spaces[k % 3]
-        cons = list(CONS) if space == "proj" else ATLAS_OK
+        cons = [c_ for c_ in CONS if c_ != "semising"] if space == "proj" else ATLAS_OK   # semising: directed corpus scripts only
         con = cons[(k // 3) % len(cons)]
         r = rng.fork("cfg%d" % k)
         n = 3 if con == "torus" and r.chance(1, 2) else r.range(3, 6)
@@ -612,8 +612,18 @@ def main_script(cfg, r, pts, tier):
         a = r.choice(edge)
         c = [x for x in edge if 0 < dist(a, x) <= 1.0]
         epairs.append((a, r.choice(c) if c else pick()))
-    special = npairs + epairs
-    cfg["_gen"] = {"gen:normal-target-pairs": len(npairs), "gen:domain-edge-pairs": len(epairs), "gen:domain-edge-points": len(edge)}
+    # an off-manifold target (robustness, like the other off-manifold targets) hovering above the manifold a few steps away
+    opairs = []
+    for a in [pick()]:
+        N = orth_normals(cfg["con"], a)
+        tdir = tangential(N, [r.uniform(-1, 1) for _ in a])
+        nt = math.sqrt(sum(c * c for c in tdir))
+        if N and nt > 1e-6:
+            # 1.5 delta above the manifold (never within delta of any manifold point), 3.1 delta along it: the traversal
+            # reaches the foot point, cannot finish, overshoots by one step: 4 delta from `from` > lambda * d for lambda = 1.1
+            opairs.append((a, [x + 1.5 * cfg["delta"] * nn + 3.1 * cfg["delta"] * tt / nt for x, nn, tt in zip(a, N[0], tdir)]))
+    special = npairs + epairs + opairs
+    cfg["_gen"] = {"gen:normal-target-pairs": len(npairs), "gen:domain-edge-pairs": len(epairs), "gen:domain-edge-points": len(edge), "gen:normal-offset-targets": len(opairs)}
     pairs = pairs[:5] + special + pairs[5:]
     for a, b in pairs:
         lines.append("geo %d %s %s" % (r.below(2), st(a), st(b)))
@@ -1164,6 +1174,19 @@ def chart_driver_lines(cfg, out):
                 E.append(("nh=%d %s" % (nh, " ".join(after))).strip())
                 T.append((li, "chart:bck"))
                 i = j
+            elif kind == "OWN":
+                nc = int(tk[i + n + 1])
+                j = i + n + 2 + nc * (n + 2)
+                L.append("own " + " ".join(tk[i:j]))
+                E.append("own=" + tk[j])
+                T.append((li, "chart:own"))
+                i = j + 1
+            elif kind == "GCK":
+                cached, force, called, own, fresh, ret, created = tk[i:i + 7]
+                L.append("gck %s %s %s %s" % (cached, force, own, fresh))
+                E.append("ret=%s created=%s consulted=%s" % (ret, created, called))
+                T.append((li, "chart:gck"))
+                i += 7
             else:
                 raise ValueError("unknown chart log token %r" % kind)
     return L, E, T
@@ -1232,6 +1255,33 @@ def chart_oracle(cfg, out):
                 if nh != len(hs):
                     fails.append((li, "chart", "neighbor-count", "borderCheck saw %d halfspaces, %d were added" % (nh, len(hs))))
                 i = j
+            elif kind == "OWN":
+                # ownership: the chart returned contains the point in its validity region (inPolytope, within epsilon_), is the
+                # closest such chart, and one is returned whenever any candidate qualifies (margins within 1e-9 not judged)
+                x = fl(tk[i:i + n])
+                eps = bits2f(tk[i + n])
+                nc = int(tk[i + n + 1])
+                j = i + n + 2
+                cands = []
+                for _ in range(nc):
+                    cands.append((tk[j], tk[j + 1] == "1", dist(x, fl(tk[j + 2:j + 2 + n]))))
+                    j += n + 2
+                ret = tk[j]
+                i = j + 1
+                if any(abs(f - eps) <= 1e-9 for (_c, _p, f) in cands):
+                    continue
+                ok = [(c, f) for (c, p_, f) in cands if p_ and f < eps]
+                if ok and ret == "-1":
+                    fails.append((li, "chart", "owning-missed", "owningChart returned no chart although chart %s contains the point in its validity region (far %.3g < epsilon %.3g)" % (ok[0][0], ok[0][1], eps)))
+                elif ret != "-1" and ret not in [c for c, _f in ok]:
+                    fails.append((li, "chart", "owning-unsound", "owningChart returned chart %s, which does not contain the point in its validity region" % ret))
+                elif ok and min(f for _c, f in ok) < dict(ok)[ret] - 1e-9:
+                    fails.append((li, "chart", "owning-not-closest", "owningChart returned chart %s (far %.3g) although a closer valid chart exists (far %.3g)" % (ret, dict(ok)[ret], min(f for _c, f in ok))))
+            elif kind == "GCK":
+                cached, force, called, own, fresh, ret, created = tk[i:i + 7]
+                i += 7
+                if fresh != "-1" and own != "-1":
+                    fails.append((li, "chart", "chart-made-despite-owner", "getChart made a new chart although owningChart had found chart %s" % own))
             else:
                 break
     return fails
@@ -1304,6 +1354,8 @@ def chart_compare(ck, cfg, out, stats):
                 xs, _, got = got.partition(" ")
                 if xs != "x=0":
                     stats["chart:bck-expansions"] = stats.get("chart:bck-expansions", 0) + int(xs[2:])
+            if tag[1] == "chart:gck" and "created=x" in exp:
+                got = " ".join("created=x" if w.startswith("created=") else w for w in got.split())   # no `created` pointer to observe
             v = same_or_drift(exp, got.strip())
             if v == "drift":
                 stats["chart:numeric-drift"] = stats.get("chart:numeric-drift", 0) + 1
